@@ -58,6 +58,10 @@ CLAIMED["C15"] = ("partial: every scanner loop proved terminating; parser fuel s
   "acceptRun_terminates + acceptRun_sites (all call sites, incl. the negated \\n\\0 run), lineComment_terminates, blockComment_terminates, quoted_terminates, scanLoop_progress / scanLoop_no_progress_raises (the outer loop never repeats a state), gen_budget_exhausted, ipsWrite_fuel, C18.toBytes_fuel. Tie: S7 (exhaustive short strings, lexeme sequences, mutants of samples and generated programs, both lexing states), S6 (token sequences exhaustively to length 2/3 and random to 30), S4 (mutants, recursive macros, self-including files, degenerate loops) — the real code must return within the watchdog, and agree with the model, which never answers OUT-OF-FUEL.",
   "Time bounds are not proved; Python's recursion limit and open-file limit are modelled by a nesting budget (outcomes are compared as rejected/accepted there).")
 
+CLAIMED["C17"] = ("partial: bookkeeping invariant and position theorem for the scanner primitives, NodeError line; composition over all scanner states by stream", "6/C17", "Lean 4 proof (invariant of next(): line number = newlines before pos, line offset = index after the last one; emitted / raised positions = true (line, column) of the token start; prefix-independence; NodeError carries the statement's file_info) + whole-pipeline correspondence of error reports + error-insertion oracle on the real assembler",
+  "next_inv, init_inv, position_is_truePos, emit_position, err_position, truePos_prefix, node_error_line, data_error_line. Tie: whole-pipeline model vs real assembler on (file, line, column, quoted line) of every report; oracle: an erroneous statement inserted at line positions of generated programs (main and included file, after comment / blank / block / macro / multi-line-comment prefixes) must be reported at its own file, line, column and text.",
+  "That every scanner state function preserves the invariant is not yet a theorem (tied by the S7 stream of C15, which compares every token position). Message texts are not compared, only locations.")
+
 NOT_YET = {}
 
 def main():
